@@ -177,9 +177,92 @@ def _standalone_wrap(ctx, bp, wr, chain_skip=()):
             return type_set(cattrs[t.attr])
         return None
 
+    _attr_fn = {}
+
+    def names_callee_attr(f_):
+        """f_(x) is `x.func.attr` whenever x is a call `__xonsh__.<attr>(...)` (and every return of f_ is that attribute or
+        None): an accessor for the callee's name, found by what it returns, decided on its own CFG"""
+        if f_.name in _attr_fn:
+            return _attr_fn[f_.name]
+        _attr_fn[f_.name] = res = False
+        a_ = f_.args
+        if len(a_.args) != 1 or a_.posonlyargs or a_.kwonlyargs or a_.vararg or a_.kwarg:
+            return res
+        p = a_.args[0].arg
+        fdefs = df.all_defs(f_)
+        if len(fdefs.get(p, [])) != 1:
+            return res
+
+        def closure(is_base):
+            got = set()
+            while True:
+                new = {n for n, ds in fdefs.items() if "." not in n and n not in got and ds and all(d.kind in ("assign", "walrus") and d.value is not None and (is_base(d.value) or (isinstance(d.value, ast.Name) and d.value.id in got)) for d in ds)}
+                if not new:
+                    return got
+                got |= new
+
+        def is_p(x):
+            return isinstance(x, ast.Name) and x.id == p
+
+        def func_read(x):
+            return isinstance(x, ast.Attribute) and x.attr == "func" and is_p(x.value)
+
+        FUNC = closure(func_read)
+
+        def is_func(x):
+            return func_read(x) or (isinstance(x, ast.Name) and x.id in FUNC)
+
+        def owner_read(x):
+            return isinstance(x, ast.Attribute) and x.attr == "value" and is_func(x.value)
+
+        OWNER = closure(owner_read)
+
+        def is_owner(x):
+            return owner_read(x) or (isinstance(x, ast.Name) and x.id in OWNER)
+
+        def is_attr(x):
+            return isinstance(x, ast.Attribute) and x.attr == "attr" and is_func(x.value)
+
+        rets = [n for n in walk_local(f_) if isinstance(n, ast.Return)]
+        if not rets or not all(r.value is None or (isinstance(r.value, ast.Constant) and r.value.value is None) or is_attr(r.value) for r in rets):
+            return res
+
+        def fatom(e):  # x is `__xonsh__.<attr>(...)`
+            if isinstance(e, ast.Call) and call_name(e) == "isinstance" and len(e.args) == 2 and not e.keywords:
+                t = unparse(e.args[1])
+                if (is_p(e.args[0]) and t == "ast.Call") or (is_func(e.args[0]) and t == "ast.Attribute") or (is_owner(e.args[0]) and t == "ast.Name"):
+                    return True
+            if isinstance(e, ast.Compare) and len(e.ops) == 1 and isinstance(e.ops[0], (ast.Eq, ast.NotEq)) and isinstance(e.left, ast.Attribute) and e.left.attr == "id" and is_owner(e.left.value) and const_value(e.comparators[0]) == "__xonsh__":
+                return isinstance(e.ops[0], ast.Eq)
+            return None
+
+        fcfg = CFG(f_)
+
+        def fskip(a, b, label):
+            if label in ("exc", "raise"):
+                return True
+            if a.kind == "if" and label in ("true", "false"):
+                v = ev3(a.ast.test, fatom)
+                return v is not None and v != (label == "true")
+            return False
+
+        live = fcfg.reach([fcfg.entry], skip_edge=fskip, include_starts=True)
+        ends = [pr for pr, label in fcfg.exit.pred if pr in live and not fskip(pr, fcfg.exit, label)]
+        res = bool(ends) and all(pr.kind == "stmt" and isinstance(pr.ast, ast.Return) and pr.ast.value is not None and is_attr(pr.ast.value) for pr in ends)
+        _attr_fn[f_.name] = res
+        return res
+
     def atom(e, sc, vals, depth=2):
         def is_val(x):
             return (isinstance(x, ast.Name) and x.id in vals) or (vals is VALS and is_value_read(x))
+
+        def is_callee_attr(x):
+            """the name of the callee of the value: `<value>.func.attr`, or an accessor function applied to the value"""
+            if isinstance(x, ast.Attribute) and x.attr == "attr" and isinstance(x.value, ast.Attribute) and x.value.attr == "func" and is_val(x.value.value):
+                return True
+            if isinstance(x, ast.Call) and not x.keywords and len(x.args) == 1 and is_val(x.args[0]) and call_name(x) in module_funcs:
+                return names_callee_attr(module_funcs[call_name(x)])
+            return False
 
         if is_val(e):  # truthiness of the value: an AST node is truthy
             return True if sc["helper"] else None
@@ -209,7 +292,7 @@ def _standalone_wrap(ctx, bp, wr, chain_skip=()):
                 if not sc["helper"]:
                     return None
                 return isinstance(op, ast.IsNot)
-            callee_attr = isinstance(l, ast.Attribute) and l.attr == "attr" and isinstance(l.value, ast.Attribute) and l.value.attr == "func" and is_val(l.value.value)
+            callee_attr = is_callee_attr(l)
             if callee_attr and isinstance(op, (ast.In, ast.NotIn)) and unparse(r) == "_RAISING_SUBPROC_HELPERS":
                 if sc["attrin"] is None:
                     return None
@@ -303,14 +386,18 @@ def _standalone_wrap(ctx, bp, wr, chain_skip=()):
             if und:
                 raise AnalysisError(f"{st}: cannot decide whether the value of an {stype} statement that is a raising-helper call is wrapped: unrecognised test(s) {und}")
             return False, f"{stype} statement whose value is a call of a raising helper: not wrapped on {cfg.fmt_path(path)}", where_
-        # (b) the value is not a helper call / a helper call outside the raising set (`!()`): never wrapped
-        for label, sc in (("is not a subprocess helper call", dict(stype=stype, helper=False, attrin=None)), ("is a helper call outside the raising set", dict(stype=stype, helper=True, attrin=False))):
+        # (b) the value is a helper call outside the raising set (`!()`): never wrapped.  A value that is no helper call
+        #     at all: reported when the wrap is definitely reached; not an error when that cannot be decided (the rule
+        #     speaks about the helper family; what an accessor returns for foreign nodes is not modelled)
+        for label, sc, strict in (("is a helper call outside the raising set", dict(stype=stype, helper=True, attrin=False), True), ("is not a subprocess helper call", dict(stype=stype, helper=False, attrin=None), False)):
             skip_edge, decide = walker(sc)
             live = cfg.reach([cfg.entry], skip_edge=skip_edge)
             for s_ in sites:
                 if s_[0] not in live or any(ev3(t, lambda x: atom(x, sc, VALS)) is (not p) for t, p in s_[1]):
                     continue
                 und = undecided(skip_edge, decide) + [unparse(t) for t, p in s_[1] if ev3(t, lambda x: atom(x, sc, VALS)) is None]
+                if und and not strict:
+                    continue
                 if und:
                     raise AnalysisError(f"{st}: cannot decide that the value of an {stype} statement that {label} stays unwrapped: unrecognised test(s) {und}")
                 return False, f"{stype} statement whose value {label} is wrapped too (the raising-set test does not guard the wrap)", loc(s_[2].ast)
@@ -607,9 +694,18 @@ def check(ctx):
     rs = sp.func("run_subproc")
     ok = any(call_name(c) == "cmds_to_specs" and unparse(kwarg(c, "in_boolop")) == "in_boolop" and unparse(kwarg(c, "captured")) == "captured" for c in calls_in(rs))
     ctx.ob("R4", f"{SP}:run_subproc", "captured kind and in_boolop are handed to cmds_to_specs", ok, key="run_subproc|forwarding")
-    rsp = sp.func("_run_specs")
+    # decided on the helper-transparent view: the (chained) assignment may sit in a helper that is handed the pipeline;
+    # what is stored must be the pipeline this call ran (the local bound from _run_command_pipeline, or a plain copy of
+    # it such as the helper's parameter)
+    rsp = flat(ctx, sp.func("_run_specs"), 1, skip=("_run_command_pipeline", "resume_process", "end"))
     rcfg = CFG(rsp)
-    setl = [n for n in rcfg.nodes if n.kind == "stmt" and isinstance(n.ast, ast.Assign) and any(unparse(t) == "XSH.lastcmd" for t in n.ast.targets)]
+    rdefs = df.all_defs(rsp)
+    PIPE = set()
+    for nm_ in names_bound_to_call(rsp, lambda c_: c_.endswith("_run_command_pipeline"), rdefs):
+        PIPE |= copies_of(rdefs, nm_)
+    if not PIPE:
+        raise AnalysisError(f"{SP}:_run_specs: the local holding the pipeline was not found")
+    setl = [n for n in rcfg.nodes if n.kind == "stmt" and isinstance(n.ast, ast.Assign) and any(unparse(t) == "XSH.lastcmd" for t in n.ast.targets) and isinstance(n.ast.value, ast.Name) and n.ast.value.id in PIPE]
     rets = [n for n in rcfg.nodes if n.kind == "stmt" and isinstance(n.ast, ast.Return)]
     ok = bool(setl) and all(rcfg.dominated(r, lambda m: m in setl) for r in rets)
     ctx.ob("R4", f"{SP}:_run_specs", "XSH.lastcmd is set to the new pipeline before any return", ok, key="_run_specs|lastcmd")
